@@ -750,7 +750,7 @@ theorem er9 (p) : emit cbResize (.unhandledOsc p) = emit cbNone (.unhandledOsc p
 
 /-- **with the resizing callback, every action except `CSI 8 ; r ; c t` does exactly what it does
 with a callback object that leaves the screen alone** (same screen, same events).  So every
-theorem proved for `cbNone` transfers to `cbResize` for all other input. -/
+  theorem proved for `cbNone` transfers to `cbResize` for all other input. -/
 theorem perform_cbResize_eq (W : Nat → Option Nat) (ws : WS) (a : Action) (h : isResizeReq a = false) :
     perform W cbResize ws a = perform W cbNone ws a := by
   cases a with
